@@ -17,7 +17,8 @@ THEOREMS = ["Visitor.prune_meaning", "Visitor.escape_iff", "Visitor.nested", "Vi
             "Visitor.walk_ext_preorder", "Visitor.walk_main_preorder", "Visitor.walk_enter_once",
             "Visitor.walk_same_nodes_as_walkabout", "Visitor.walk_leaf",
             "Visitor.extsOf_append", "Visitor.late_add_ext_view", "Visitor.late_add_main_view", "Visitor.late_add_new_view",
-            "Visitor.main_enter_once", "Visitor.same_nodes_entered"]
+            "Visitor.main_enter_once", "Visitor.same_nodes_entered",
+            "Visitor.order_depart_ext_only", "Visitor.depart_ext_only_is_filter"]
 RULE = ("exhaustive: every ordered tree of <=4 nodes (9 shapes) x every assignment of the 5 pruning actions x every "
         "subset of the 4 timings (one extension each) run through the real pydoctor.visitor.Visitor.walkabout/walk and "
         "through the Lean model; plus random trees of 5-9 nodes with repeated timings; plus the real ASTBuilder on "
